@@ -1014,16 +1014,17 @@ Proof.
   repeat split; try (vm_compute; reflexivity). vm_compute. discriminate.
 Qed.
 
-(* before ff5734c: intervals = 1 and a partition known only through an owner update: the handler panics *)
+(* before ff5734c: a status entry with Complete = 1.0 and End = nil made the handler dereference nil.  Until the
+   evaluator repair 21f3585 evaluatePartitionStatus produced exactly that for intervals = 1 and a partition known
+   only through an owner update (window [nil]); the guarded handler skips it. *)
+Definition w_nil_end_status : gstatus :=
+  mkGstatus StOK f32_one [mkPstatus 1 1 7 8 StOK None None 0 f32_one] 1 None 0.
+
 Theorem scrape_nil_end_v0_refuted :
-  exists sc sy now, scrape_v0 sc now sy = None /\ scrape sc now sy <> None.
-Proof.
-  destruct (w_ingest (wsc 1 604800) [4]
-              [(1000, SetBrokerOffset 4 1 0 2 100); (1000, SetBrokerOffset 4 1 1 2 200);
-               (1000, SetConsumerOffset 4 1 1 0 90 1 999000); (1000, SetConsumerOwner 4 1 1 1 7 8)])
-    as [sy0|] eqn:E0; [|vm_compute in E0; discriminate].
-  exists (wsc 1 604800), sy0, 1000. vm_compute in E0. injection E0 as <-. split; [vm_compute; reflexivity|vm_compute; discriminate].
-Qed.
+  exists gs, nil_end_panics gs = true /\
+             reg_get (set_group 4 1 [] gs) (KPart PLag 4 1 1 1) = Some 0 /\
+             reg_get (set_group 4 1 [] gs) (KPart POffset 4 1 1 1) = None.
+Proof. exists w_nil_end_status. vm_compute. auto. Qed.
 
 (* finding C17:expired-group-listed: the list requests do not look at the expiry *)
 Theorem expired_group_listed_refuted :
